@@ -464,3 +464,64 @@ class Rng(random.Random):
 
     def chance(self, p):
         return self.random() < p
+
+
+# ----------------------------------------------------------------------------
+def fork_map(fn, args, workers=12, timeout=120):
+    """Run fn(arg) in forked children of this (already initialised) process; the child's
+    JSON-serialisable return value comes back through a pipe.  A child that exits early
+    (e.g. os._exit at an injected kill point) yields (exit_code, None)."""
+    import select
+    results = [None] * len(args)
+    pending = list(enumerate(args))
+    running = {}          # pid -> (index, read fd, buffer, start time)
+    while pending or running:
+        while pending and len(running) < workers:
+            i, a = pending.pop(0)
+            r, w = os.pipe()
+            sys.stdout.flush()
+            pid = os.fork()
+            if pid == 0:
+                code = 0
+                try:
+                    os.close(r)
+                    res = fn(a)
+                    os.write(w, json.dumps(res, default=str).encode())
+                except SystemExit as e:
+                    code = int(e.code or 0)
+                except BaseException as e:
+                    try:
+                        os.write(w, json.dumps({'child_exception': '%s: %s' % (type(e).__name__, e)}).encode())
+                    except Exception:
+                        pass
+                    code = 3
+                finally:
+                    os._exit(code)
+            os.close(w)
+            running[pid] = (i, r, [], time.time())
+        # drain pipes
+        fds = [v[1] for v in running.values()]
+        ready, _, _ = select.select(fds, [], [], 0.05)
+        for pid, (i, r, buf, t0) in list(running.items()):
+            if r in ready:
+                data = os.read(r, 1 << 16)
+                if data:
+                    buf.append(data)
+                    continue
+                # EOF
+                os.close(r)
+                _, status = os.waitpid(pid, 0)
+                code = os.waitstatus_to_exitcode(status)
+                text = b''.join(buf).decode() if buf else ''
+                results[i] = (code, json.loads(text) if text else None)
+                del running[pid]
+            elif time.time() - t0 > timeout:
+                try:
+                    os.kill(pid, 9)
+                except OSError:
+                    pass
+                os.close(r)
+                os.waitpid(pid, 0)
+                results[i] = (124, None)
+                del running[pid]
+    return results
